@@ -123,15 +123,21 @@ func c13CheckFork(g *Gen, out *clOutcome) []clFinding {
 	var fs []clFinding
 	w := out.w
 	reported := map[int]bool{} // client -> a fork was reported through SecurityError to this instance
+	// client -> the head an earlier lookup of this instance moved the in-memory head to although that lookup then
+	// failed while reconciling with a stored head written by somebody else (cause (i)+(ii) of the no-rollback finding)
+	advFail := map[int]*clHead{}
+	lastNew := 0
 	for _, lk := range out.looks {
 		if lk.g != "s" {
 			continue
 		}
-		for _, ev := range out.env.trace[lk.from:lk.to] {
+		for _, ev := range out.env.trace[lastNew:lk.from] {
 			if ev.Kind == "new" {
 				reported[ev.C] = false
+				delete(advFail, ev.C)
 			}
 		}
+		lastNew = lk.from
 		// the head presented by the response this lookup used
 		remote, ok := clLookupFile(lk.path, lk.vers)
 		if !ok {
@@ -195,12 +201,28 @@ func c13CheckFork(g *Gen, out *clOutcome) []clFinding {
 				fs = append(fs, clFinding{"C13 stored head changed while a tree inconsistent with it was presented", lk.key})
 			}
 			if lk.kind == "ok" {
-				if reported[lk.c] {
+				// (iii) the successful lookup presented a head at or below the in-memory head (mergeLatest returned
+				// before touching the configuration); (iv) no WriteConfig ever stored the forked head
+				af := advFail[lk.c]
+				cause := af != nil && lk.memN0 == af.n && mem.onA == af.onA && mem.onB == af.onB && ph.n <= mem.n && w.prefixOf(ph, mem)
+				if cause {
+					for _, ev := range out.env.trace {
+						if ev.Kind == "wf" && ev.Err == "" {
+							if h := w.classifyHead(ev.Data); h.valid && !(w.prefixOf(h, stored) || w.prefixOf(stored, h)) {
+								cause = false
+							}
+						}
+					}
+				}
+				switch {
+				case reported[lk.c]:
 					g.st.OracleTags["observation/lookup-ok-on-fork-after-security-error"]++
 					if c13StrictAfterSecurity {
 						fs = append(fs, clFinding{"C13 after reporting a fork the client keeps answering from the tree that is inconsistent with the stored head", lk.key})
 					}
-				} else {
+				case cause:
+					fs = append(fs, clFinding{"C13 no-rollback: in-memory head advanced to a fork, reconciliation with a newer stored head failed, later lookups at or below that in-memory head succeed", lk.key})
+				default:
 					fs = append(fs, clFinding{"C13 lookup on a tree inconsistent with the shared stored head succeeded without any security report", lk.key})
 				}
 			}
@@ -208,6 +230,42 @@ func c13CheckFork(g *Gen, out *clOutcome) []clFinding {
 		for _, ev := range out.env.trace[lk.from:lk.to] {
 			if ev.Kind == "sec" && ev.C == lk.c {
 				reported[lk.c] = true
+			}
+		}
+		// (i) this lookup advanced the in-memory head: presented head strictly larger than, and consistent with, the
+		// in-memory head before, and the in-memory head afterwards IS the presented one;
+		// (ii) it then failed, after ReadConfig had returned a stored head — written by somebody else — inconsistent
+		// with the presented one
+		if lk.kind != "ok" && lk.memN0 >= 0 && ph.n > mem.n && w.prefixOf(mem, ph) && lk.memN1 == ph.n {
+			after := clHead{valid: true, n: lk.memN1}
+			if th, ok := w.A.treeHash(lk.memN1); ok && th == lk.memH1 {
+				after.onA = true
+			}
+			if w.B != nil {
+				if th, ok := w.B.treeHash(lk.memN1); ok && th == lk.memH1 {
+					after.onB = true
+				}
+			}
+			sameTree := after.onA == ph.onA && after.onB == ph.onB && (after.onA || after.onB)
+			readForeign := false
+			for _, ev := range out.env.trace[lk.from:lk.to] {
+				if ev.C == lk.c && ev.Kind == "rf" && ev.Err == "" && ev.File == clName+"/latest" {
+					if h := w.classifyHead(ev.Data); h.valid && h.n > 0 && !w.prefixOf(h, ph) && !w.prefixOf(ph, h) {
+						foreign := true
+						for _, e2 := range out.env.trace[:ev.Seq] {
+							if e2.Kind == "wf" && e2.Err == "" && e2.C == lk.c && bytes.Equal(e2.Data, ev.Data) {
+								foreign = false // written by this very client index
+							}
+						}
+						if foreign {
+							readForeign = true
+						}
+					}
+				}
+			}
+			if sameTree && readForeign {
+				h := after
+				advFail[lk.c] = &h
 			}
 		}
 	}
